@@ -126,6 +126,8 @@ class Ctx:
         self.count(label + ".cases", len(cases))
         self.count(label + ".diffs", len(diffs))
         reported = set()
+        failing.sort(key=lambda t: len(sexp.dumps(cases[t[0]])))
+        nrep = 0
         for i, why in failing:
             kf = known_class(cases[i], ires[i]) if known_class else None
             if kf:
@@ -142,7 +144,8 @@ class Ctx:
                                         "impl": _short(observed(c, impl.run_lines([c], env=env)[0]), 2000),
                                         "model": _short(expected(c, model.run_driver([c])[0]), 2000),
                                         "replay_cmd": "./check %s --replay <this file>" % self.pid})
-            if len(self.violations) >= 5:
+            nrep += 1
+            if nrep >= 3:
                 break
         if diffs and not failing:
             i = diffs[0]
